@@ -101,3 +101,45 @@ def c03(work, tier, seed, replay):
         "grammar-derived exhaustive small scope + structural mutation + specification-enumerated conversations; not coverage-guided fuzzing",
         "a step that panics or does not return within 20 s is a crash; TLC requires every recorded run to have none",
         "netboot outcomes are compared with the total outcome function of spec/Netboot.tla"])
+
+
+@prop("C09")
+def c09(work, tier, seed, replay):
+    from .props_v4 import replay_file
+    quick = tier == "quick"
+    if replay:
+        return replay_file(work, "Trace_Cost", replay)
+    mc = common.require_mc(common.tlc(work, "Cost", cfg="MC_Cost", workers=4, timeout=600), "MC_Cost")
+    vh = common.build_vh(work)
+    tr, stats = common.vh_gen(work, vh, "c09", seed, tier, timeout=3000)
+    bad, tstates, tgen, lines = common.tlc_trace(work, "Trace_Cost", tr, procs=1, workers=2)
+    findings = {f["key"]: f for f in common.load_findings() if f["property"] == "C09"}
+    viol, known = [], {}
+    for i in bad:
+        e = json.loads(lines[i - 1])
+        key = "family:" + e["family"]
+        desc = ("%s: input of %d bytes (nesting depth %d) -> %s KiB allocated, %s KiB retained%s; bounds %d / %d KiB"
+                % (e["family"], e["n"], e["depth"], e["allocKiB"], e["retainedKiB"], " (killed after 25 s)" if e["killed"] else "",
+                   256 * e["n"] // 1024 + 8 * e["n"] * e["depth"] // 1024 + 64, 64 * e["n"] // 1024 + 16))
+        if key in findings:
+            known.setdefault(key, desc)
+        else:
+            viol.append((desc, [lines[i - 1]]))
+    meas = [json.loads(l) for l in lines]
+    worst = {}
+    for e in meas:
+        w = worst.setdefault(e["family"], dict(alloc_per_byte=0, retained_per_byte=0))
+        w["alloc_per_byte"] = max(w["alloc_per_byte"], round(e["allocKiB"] * 1024 / max(1, e["n"]), 1))
+        w["retained_per_byte"] = max(w["retained_per_byte"], round(e["retainedKiB"] * 1024 / max(1, e["n"]), 1))
+    cov = dict(states=mc["distinct"], transitions=mc["generated"], traces_validated_against_impl=len(lines), trace_states=tstates,
+               evaluations=len(lines), distinct=stats["distinct"], distinct_nontrivial=stats["distinct_nontrivial"], classes=stats["classes"],
+               worst_per_family=worst,
+               rule="witness families instantiated at %s bytes: compression-pointer fan, one long unterminated name, identity associations and relay "
+                    "messages nested as deep as the size allows, thousands of empty options / items, one DHCPv4 option repeated with maximal and "
+                    "minimal instances, ordinary messages; each decoded and re-encoded in a child process; TotalAlloc delta and reflective deep "
+                    "size recorded; non-trivial = accepted by the decoder; distinct by input" % ("1k..65507" if quick else "512..65507 (x3)"),
+               samples=[common.trim_sample({k: v for k, v in e.items() if k != "in"}) for e in meas[:4]])
+    return dict(violations=viol, known=["key=%s %s" % (k, d) for k, d in sorted(known.items())], coverage=cov, assumptions=[
+        "the measured quantity (bytes allocated / retained by the real decoder) is outside TLA+; the specification contributes the cost semantics, the bounds "
+        "(constants >= 4x the worst correct measurement) and the witness shapes; there is no adversarial search",
+        "a decode that does not finish within 25 s in its child process counts as exceeding every bound"])
